@@ -63,7 +63,12 @@ pub fn body_of(op: &ClientOp) -> Value {
             json!({"jsonrpc":"2.0","id":id,"method":"$/verif/text","params":{"uri":uri}})
         }
         ClientOp::UnknownRequest { id, method } => {
-            json!({"jsonrpc":"2.0","id":id,"method":method,"params":{}})
+            if method.len() <= 2 {
+                // the smallest request that is still valid JSON-RPC (no params member)
+                json!({"jsonrpc":"2.0","id":id,"method":method})
+            } else {
+                json!({"jsonrpc":"2.0","id":id,"method":method,"params":{}})
+            }
         }
         ClientOp::UnknownNotification { method } => {
             json!({"jsonrpc":"2.0","method":method,"params":{}})
